@@ -21,6 +21,11 @@ type Env struct {
 	imports map[string]string
 	loop    *loopInfo
 	depth   int
+	// captured variables of a closure under contract: name -> pointer to the variable's cell (read in the state the
+	// expression is evaluated in, so old(x) is the entry value)
+	cells map[string]*Val
+	// frame of the enclosing function while evaluating inside old(): only for expressions whose TYPE is all that matters
+	typeFr *Frame
 }
 
 func (env *Env) with(st *State) *Env {
@@ -44,6 +49,14 @@ func (e *Enc) envFor(fr *Frame, st *State) *Env {
 	}
 	if env.old == nil {
 		env.old = st
+	}
+	for _, fv := range fr.fn.FreeVars {
+		if v := fr.vals[fv]; v != nil && isPointer(fv.Type()) && v.Loc == nil && v.Clos == nil {
+			if env.cells == nil {
+				env.cells = map[string]*Val{}
+			}
+			env.cells[fv.Name()] = v
+		}
 	}
 	return env
 }
@@ -203,6 +216,9 @@ func (env *Env) eval(x Expr) (*Val, error) {
 		n := *env
 		n.st = env.old
 		n.fr = nil // the entry state knows parameters (their entry values) but no locals
+		if env.fr != nil {
+			n.typeFr = env.fr // ... except where only the TYPE of a local-typed expression is needed (keysAt)
+		}
 		return n.eval(x.X)
 	case *EUn:
 		v, err := env.eval(x.X)
@@ -320,10 +336,34 @@ func (env *Env) eval(x Expr) (*Val, error) {
 			e.qscope = append(e.qscope, [2]string{n.vars[v.Name].L[0].T, n.vars[v.Name].L[0].S})
 		}
 		b, err := n.evalBool(x.Body)
+		// explicit triggers (forall x T :: {t1, t2} {t3} body) are evaluated in the scope of the bound variables
+		var explicitPats string
+		var patErr error
+		if err == nil {
+			for _, grp := range x.Pats {
+				var ts []string
+				for _, pe := range grp {
+					pv, perr := n.eval(pe)
+					if perr != nil {
+						patErr = fmt.Errorf("trigger %s: %v", exprString(pe), perr)
+						break
+					}
+					if len(pv.L) != 1 {
+						patErr = fmt.Errorf("trigger %s is not a scalar term", exprString(pe))
+						break
+					}
+					ts = append(ts, pv.L[0].T)
+				}
+				explicitPats += " :pattern (" + strings.Join(ts, " ") + ")"
+			}
+		}
 		e.qbound = e.qbound[:nq]
 		e.qscope = e.qscope[:len(e.qscope)-len(x.Vars)]
 		if err != nil {
 			return nil, err
+		}
+		if patErr != nil {
+			return nil, patErr
 		}
 		// side facts emitted while evaluating the body (typing facts of memory reads, facts of pure calls) may mention
 		// the bound variables: they hold for every value of them, so they are universally closed here
@@ -359,7 +399,9 @@ func (env *Env) eval(x Expr) (*Val, error) {
 		if x.Forall {
 			q = "forall"
 		}
-		if pats := selectPatterns(b, qnames); len(pats) > 0 && x.Forall {
+		if explicitPats != "" {
+			b = "(! " + b + explicitPats + ")"
+		} else if pats := selectPatterns(b, qnames); len(pats) > 0 && x.Forall {
 			var ps []string
 			for _, pt := range pats {
 				ps = append(ps, ":pattern ("+pt+")")
@@ -417,6 +459,9 @@ func (env *Env) evalIdent(name string) (*Val, error) {
 	}
 	if name == "nil" {
 		return mathVal("0", "Int"), nil
+	}
+	if c, ok := env.cells[name]; ok {
+		return e.loadLoc(env.st, e.ptrLoc(c)), nil
 	}
 	if name == "visited" && env.fr != nil && env.loop != nil {
 		if v := env.lookupSSA(name); v != nil {
@@ -940,7 +985,10 @@ func (env *Env) evalCall(x *ECall) (*Val, error) {
 				case *types.Basic:
 					if u.Info()&types.IsString != 0 {
 						e.declFun("strlen", []string{"Str"}, "Int")
-						e.assert("(<= 0 (strlen " + v.L[0].T + "))")
+						// (not for terms over ghost-function parameters or quantified variables: they are not in scope at top level)
+						if !strings.Contains(v.L[0].T, "|gp!") {
+							e.assertTyping("(<= 0 (strlen " + v.L[0].T + "))")
+						}
 						return mathVal("(strlen "+v.L[0].T+")", "Int"), nil
 					}
 				}
@@ -968,6 +1016,9 @@ func (env *Env) evalCall(x *ECall) (*Val, error) {
 				}
 				if id.Name == "base" {
 					return mathVal(v.L[0].T, "Int"), nil
+				}
+				if id.Name == "cap" {
+					return mathVal(v.L[3].T, "Int"), nil
 				}
 				return mathVal(v.L[1].T, "Int"), nil
 			}
@@ -1019,6 +1070,37 @@ func (env *Env) evalCall(x *ECall) (*Val, error) {
 				}
 			}
 			return nil, fmt.Errorf("keys() needs a Go map")
+		case "keysAt":
+			// keysAt(r, m): key set of the Go map object r, taken to be of the same map type as the map-typed expression m
+			// (for frame statements over every map of a type: forall r ref :: !fresh(r) ==> keysAt(r, m) == old(keysAt(r, m)))
+			if len(x.Args) == 2 {
+				menv := env
+				if env.fr == nil && env.typeFr != nil {
+					// inside old(): the map expression only supplies the map type, locals may be named
+					c := *env
+					c.fr = env.typeFr
+					menv = &c
+				}
+				m, err := menv.eval(x.Args[1])
+				if err != nil {
+					return nil, err
+				}
+				r, err := env.eval(x.Args[0])
+				if err != nil {
+					return nil, err
+				}
+				if m.T != nil && len(r.L) == 1 && r.L[0].S == "Int" {
+					if _, ok := m.T.Underlying().(*types.Map); ok {
+						ksort, dk, ds, _, ok := e.mapKeys(m.T)
+						if !ok {
+							return nil, fmt.Errorf("map with composite key")
+						}
+						dom := e.heapGet(env.st, dk, ds)
+						return mathVal("(select "+dom+" "+r.L[0].T+")", "(Array "+ksort+" Bool)"), nil
+					}
+				}
+			}
+			return nil, fmt.Errorf("keysAt(r, m) needs a reference and a Go map expression")
 		case "fresh":
 			v, err := env.eval(x.Args[0])
 			if err != nil {
@@ -1043,6 +1125,35 @@ func (env *Env) evalCall(x *ECall) (*Val, error) {
 				return nil, fmt.Errorf("typeof needs an interface value")
 			}
 			return mathVal(v.L[0].T, "Int"), nil
+		case "substr", "strcat":
+			// the string operations of the encoder (s[lo:hi], a + b) as specification functions
+			want := map[string]int{"substr": 3, "strcat": 2}[id.Name]
+			if _, shadow := env.vars[id.Name]; !shadow && len(x.Args) == want {
+				if _, isGhost := e.DB.Ghosts[id.Name]; !isGhost {
+					vals, err := env.evalArgs(x.Args)
+					if err != nil {
+						return nil, err
+					}
+					var ts []string
+					for i, v := range vals {
+						wantSort := "Str"
+						if id.Name == "substr" && i > 0 {
+							wantSort = "Int"
+						}
+						if len(v.L) != 1 || v.L[0].S != wantSort {
+							return nil, fmt.Errorf("argument %d of %s has the wrong sort", i+1, id.Name)
+						}
+						ts = append(ts, v.L[0].T)
+					}
+					var f string
+					if id.Name == "substr" {
+						f = e.declFun("substr", []string{"Str", "Int", "Int"}, "Str")
+					} else {
+						f = e.declFun("strcat", []string{"Str", "Str"}, "Str")
+					}
+					return &Val{T: types.Typ[types.String], L: []Sc{{"(" + f + " " + strings.Join(ts, " ") + ")", "Str"}}}, nil
+				}
+			}
 		case "bytes":
 			// abstraction of the content of a []byte value in the current state
 			if len(x.Args) == 1 {
@@ -1137,6 +1248,28 @@ func (env *Env) evalCall(x *ECall) (*Val, error) {
 				}
 			}
 			return nil, fmt.Errorf("unbox(x, type(T))")
+		case "asptr":
+			// asptr(r, type(*T)): view the reference r (e.g. the payload of an interface value holding a *T) as a *T
+			if len(x.Args) == 2 {
+				if tl, ok := x.Args[1].(*ETypeLit); ok {
+					gt, err := e.resolveGoType(tl.T, env.pkgPath, env.imports)
+					if err != nil {
+						return nil, err
+					}
+					if !isPointer(gt) {
+						return nil, fmt.Errorf("asptr() needs a pointer type, got %s", typeStr(gt))
+					}
+					v, err := env.eval(x.Args[0])
+					if err != nil {
+						return nil, err
+					}
+					if len(v.L) != 1 || v.L[0].S != "Int" {
+						return nil, fmt.Errorf("asptr() needs a reference")
+					}
+					return &Val{T: gt, L: []Sc{v.L[0]}}, nil
+				}
+			}
+			return nil, fmt.Errorf("asptr(r, type(*T))")
 		case "implements":
 			// implements(x, type(I)): the dynamic type of interface value x (or the type tag x) implements interface I
 			if len(x.Args) == 2 {
@@ -1665,6 +1798,7 @@ func (e *Enc) bseqTerm(arr, off, ln string) string {
 	e.declSort("Bytes")
 	f := e.declFun("bseq", []string{"(Array Int Int)", "Int", "Int"}, "Bytes")
 	t := "(" + f + " " + arr + " " + off + " " + ln + ")"
+	e.bytesInterpretation(f)
 	if e.bseqSeen == nil {
 		e.bseqSeen = map[string]bool{}
 	}
@@ -1698,6 +1832,52 @@ func (e *Enc) bcatFact(res, s, t string) {
 	if g, ok := e.DB.Ghosts["bcat"]; ok && len(g.Params) == 2 && g.Body == nil {
 		if n, _, err := e.ghostSymbol(g); err == nil {
 			e.assert(eq(res, "("+n+" "+s+" "+t+")"))
+		}
+	}
+}
+
+// bytesInterpretation: when the prelude declares the uninterpreted ghost functions `blen(b bytes) int` and
+// `bat(b bytes, i int) int`, the abstract content of a []byte is tied to the slice it abstracts:
+// blen(bytes(s)) == len(s) and bat(bytes(s), i) == s[i] for 0 <= i < len(s). Without these ghosts bytes() stays opaque.
+func (e *Enc) bytesInterpretation(bseq string) {
+	if _, done := e.declared["bytes!interp"]; done {
+		return
+	}
+	gl, ok1 := e.DB.Ghosts["blen"]
+	ga, ok2 := e.DB.Ghosts["bat"]
+	if !ok1 || !ok2 || gl.Body != nil || ga.Body != nil || len(gl.Params) != 1 || len(ga.Params) != 2 {
+		return
+	}
+	// the element-wise reading is only useful together with a theory of bat: it is emitted when an axiom that mentions
+	// bat is in scope for the property being checked (axioms may be scoped: axiom[Cxx] ...)
+	theory := false
+	for _, ax := range e.DB.Axioms {
+		if strings.Contains(ax.Src, "bat(") && (len(ax.Props) == 0 || currentProperty == "" || ax.Props[currentProperty]) {
+			theory = true
+			break
+		}
+	}
+	if !theory {
+		e.declared["bytes!interp"] = "off"
+		return
+	}
+	e.declared["bytes!interp"] = "done"
+	ln, ls, err1 := e.ghostSymbol(gl)
+	an, as, err2 := e.ghostSymbol(ga)
+	if err1 != nil || err2 != nil || ls != "Int" || as != "Int" {
+		return
+	}
+	// emitted as axioms: subject to the relevance filter of solve.go (kept only when blen / bat / bsub matter)
+	e.emit("; axiom bytes-interpretation-len")
+	e.assert("(forall ((a (Array Int Int)) (o Int) (n Int)) (! (=> (<= 0 n) (= (" + ln + " (" + bseq + " a o n)) n)) :pattern ((" + bseq + " a o n))))")
+	e.emit("; axiom bytes-interpretation-at")
+	e.assert("(forall ((a (Array Int Int)) (o Int) (n Int) (i Int)) (! (=> (and (<= 0 i) (< i n)) (= (" + an + " (" + bseq + " a o n) i) (select a (+ o i)))) :pattern ((" + an + " (" + bseq + " a o n) i))))")
+	// `bsub(b bytes, lo int, hi int) bytes` (sub-string [lo, hi)): the content of a re-sliced []byte s[lo:hi] is
+	// bsub(bytes(s), lo, hi) — a consequence of the element link and extensionality, stated so that no solver has to find it
+	if gs, ok := e.DB.Ghosts["bsub"]; ok && gs.Body == nil && len(gs.Params) == 3 {
+		if sn, ss, err := e.ghostSymbol(gs); err == nil && ss == "Bytes" {
+			e.emit("; axiom bytes-interpretation-sub")
+			e.assert("(forall ((a (Array Int Int)) (o Int) (n Int) (lo Int) (hi Int)) (! (=> (and (<= 0 lo) (<= lo hi) (<= hi n)) (= (" + sn + " (" + bseq + " a o n) lo hi) (" + bseq + " a (+ o lo) (- hi lo)))) :pattern ((" + sn + " (" + bseq + " a o n) lo hi))))")
 		}
 	}
 }
